@@ -31,14 +31,33 @@ package utils
 // ends in it (recorded by the tree builder), whatever hangs below it.
 //@   at fieldwrite.Status assert address_passes_only_as_the_signing_key: IsAccount(pnode.Name) == 0 && !(i == 0 && !isAccount) && $1 == 2 ==> pnode.EndsURI
 //@   ensures root_verdict: result1 == nil ==> result0 == (root.Status == 2)
+//@   ensures an_error_is_a_refusal: result1 != nil ==> !result0
 
 // Functions of their arguments (and of the unchanging ACL state during one verification).
 //@ func IsAccount
 //@   noverify
 //@   pure
+// (Used as a function of its arguments by the callers; what is proved of its body: the tree
+// is built for THIS account from THESE signer uris and that tree is what gets evaluated, as
+// an account rule; without an ACL manager nobody is identified.)
 //@ func IdentifyAccount
-//@   noverify
+//@   property C11 C07
 //@   pure
+//@   trustcallees
+//@   at BuildAccountPermTree assert tree_of_this_account_and_these_signers: ifacePtr($0) == ifacePtr(aclMgr) && $1 == account && $2 == aksuri
+//@   at validatePermTree assert the_built_tree_is_what_is_evaluated: $0 == pnode && err == nil && $1
+//@   ensures no_manager_nobody_identified: isnil(aclMgr) ==> !result0
+//@   ensures an_error_is_a_refusal: result1 != nil ==> !result0
+
+// The same for a contract method's rule.
+//@ func CheckContractMethodPerm
+//@   property C11 C07
+//@   pure
+//@   trustcallees
+//@   at BuildMethodPermTree assert tree_of_this_method_and_these_signers: ifacePtr($0) == ifacePtr(aclMgr) && $1 == contractName && $2 == methodName && $3 == aksuri
+//@   at validatePermTree assert the_built_tree_is_what_is_evaluated: $0 == pnode && err == nil && !$1
+//@   ensures no_manager_nobody_passes: isnil(aclMgr) ==> !result0
+//@   ensures an_error_is_a_refusal: result1 != nil ==> !result0
 
 // An access key URI is identified by a signature only through VerifySign on its last path segment.
 //@ func IdentifyAK
